@@ -83,7 +83,7 @@ mod verif_x509_time {
         assert!(r.is_ok() == spec_gen(&b).is_some(), "GeneralizedTime: accepted exactly when all-digit, Z-terminated, real date");
         if let Ok(t) = r { assert!(Some(fields(&t)) == spec_gen(&b), "GeneralizedTime: decoded instant"); }
     }}
-    //@harness time_take_opt_from_gen K fn=Time::take_opt_from timeout=1500
+    //@harness time_take_opt_from_gen K fn=Time::take_opt_from timeout=2400 thorough
     verif_harness!{ #[kani::unwind(7)] time_take_opt_from_gen; |b: [u8; 15]| {
         let d = gen_der(&b);
         let r = Mode::Der.decode(&d[..], Time::take_opt_from);
@@ -102,7 +102,7 @@ mod verif_x509_time {
         }
         fn flush(&mut self) -> io::Result<()> { Ok(()) }
     }
-    //@harness time_encode_utc K fn=UtcTime::write_encoded timeout=1200
+    //@harness time_encode_utc K fn=UtcTime::write_encoded timeout=2400 thorough
     verif_harness!{ #[kani::unwind(22)] time_encode_utc; |y: u32, mo: u32, d: u32, h: u32, mi: u32, sec: u32| {
         // every calendar second of 1950..=2049: the written UTCTime names the same instant and decodes back
         assume(y >= 1950 && y <= 2049 && valid_date_time(y, mo, d, h, mi, sec));
@@ -114,7 +114,7 @@ mod verif_x509_time {
         assert!(spec_utc(&b) == Some((y, mo, d, h, mi, sec)), "UTCTime octets denote the same instant (fixed width, all digits, Z)");
         // (decoding these octets back is harness time_take_from_utc: it returns from_parts(spec_utc(b)) == t)
     }}
-    //@harness time_encode_gen K fn=GeneralizedTime::write_encoded timeout=1200
+    //@harness time_encode_gen K fn=GeneralizedTime::write_encoded timeout=2400 thorough
     verif_harness!{ #[kani::unwind(22)] time_encode_gen; |y: u32, mo: u32, d: u32, h: u32, mi: u32, sec: u32| {
         // every calendar second of the years 0..=9999
         assume(y <= 9999 && valid_date_time(y, mo, d, h, mi, sec));
@@ -126,7 +126,17 @@ mod verif_x509_time {
         assert!(spec_gen(&b) == Some((y, mo, d, h, mi, sec)), "GeneralizedTime octets denote the same instant");
         // (decoding these octets back is harness time_take_from_gen: it returns from_parts(spec_gen(b)) == t)
     }}
-    //@harness time_encode_varied_choice K fn=Time::encode_varied timeout=1200
+    //@harness time_encode_varied_len K fn=Time::encode_varied timeout=1200
+    verif_harness!{ #[kani::unwind(24)] time_encode_varied_len; |y: u32, mo: u32, d: u32, h: u32, mi: u32, sec: u32| {
+        // the choice alone (no octets written, so std::fmt is not executed): every calendar second of 0..=9999
+        use bcder::encode::Values;
+        assume(y <= 9999 && valid_date_time(y, mo, d, h, mi, sec));
+        let t = Time::from_parts((y as i32, mo, d, h, mi, sec)).unwrap();
+        let utc = y >= 1950 && y <= 2049;
+        let v = t.encode_varied();
+        assert!(v.encoded_len(Mode::Der) == (if utc { 15 } else { 17 }), "UTCTime (13 content octets) for 1950..=2049, GeneralizedTime (15) otherwise");
+    }}
+    //@harness time_encode_varied_choice K fn=Time::encode_varied timeout=2400 thorough
     verif_harness!{ #[kani::unwind(24)] time_encode_varied_choice; |y: u32, mo: u32, d: u32, h: u32, mi: u32, sec: u32| {
         use bcder::encode::Values;
         assume(y <= 9999 && valid_date_time(y, mo, d, h, mi, sec));
